@@ -136,7 +136,9 @@ fn decode_loop(
                 total_bytes_read += bytes_read;
                 // The output is already reserved to the size of the input. We slowly resize. Here,
                 // we're expecting that 10% of bytes will double in size when converting to UTF-8.
-                output.reserve(input.len() / 10);
+                // Always make room for at least one more character: for inputs shorter than 10
+                // bytes `input.len() / 10` is 0 and the loop would never make progress.
+                output.reserve(std::cmp::max(input.len() / 10, 4));
             }
             (DecoderResult::Malformed(malformed_len, bytes_after_malformed), bytes_read) => {
                 total_bytes_read += bytes_read;
